@@ -15,6 +15,15 @@ def walker_cases(ctx):
             for cf in ([('1', '8', 'o')] if ctx.quick() else [('1', '8', 'o'), ('2', '8', 'o'), ('4', '8', 'c')]):
                 out.append((prog, '>0>0>0' + 'a' * 8 + '1b' * p + '>2>2>2>2>2' + 'c' * 8, cf))
     return out
+def grow_cases(ctx):
+    """unique adds of a key whose hash IS the index of a bucket that a concurrent grow is creating, at every point of the grow (in particular between the linking of the new
+    bucket node and the publication of the new size); then lookups of it, a second unique add of the same key and the end-of-run checks"""
+    out = []
+    for prog, cf in (('Z2/U3L3U5L3T', ('2', '8', 'o')), ('Z2/U4L4T/L4', ('2', '8', 'o')), ('Z3/U8L8T', ('4', '8', 'o')), ('Z3/R6L6T/U9L9', ('4', '8', 'o')), ('Z3/U9L9T', ('4', '8', 'c'))):
+        for k in range(0, 120 if ctx.quick() else 200, 2 if ctx.quick() else 1):
+            out.append((prog, '0a' * k + '>1>1>1>1>1' + '>2>2', cf))
+    return out
+
 def key_never_absent(prog, raw):
     """a key continuously present while it is being replaced is found by every concurrent lookup: programs whose only removals are replacements of a key inserted before the lookups began"""
     ev = X.events(raw); hist, _, _ = X.history(ev)
@@ -39,7 +48,7 @@ def run(ctx):
     ximpl = X.build(ctx)
     fdriver = build_model_driver(ctx, 'flagproto', 'ExtractFlagProto.v', 'flagproto_driver.ml')
     if ximpl:
-        X.run_cases(ctx, 'unique adds / replace', ximpl, X.gen(ctx, XPROGS, 400 if ctx.quick() else 6000, 'C06x', [('2', '8', 'o'), ('1', '8', 'o'), ('4', '8', 'c')]) + walker_cases(ctx), flag_driver=fdriver, extra_oracle=key_never_absent)
+        X.run_cases(ctx, 'unique adds / replace', ximpl, X.gen(ctx, XPROGS, 400 if ctx.quick() else 6000, 'C06x', [('2', '8', 'o'), ('1', '8', 'o'), ('4', '8', 'c')]) + walker_cases(ctx) + grow_cases(ctx), flag_driver=fdriver, extra_oracle=key_never_absent)
     return finish(ctx, trusted=L.TRUSTED + ['extraction of FlagProto: ExtrOcamlBasic only; ocaml/flagproto_driver.ml; projection tools/lfhtx_common.py project_flags() (trusted)',
                   'modelled by FlagProto: the flag bits and ownership successes of one next word (pointer changes abstracted to "link" accesses); traversal-level uniqueness under concurrency is an oracle, the theorem is sequential'],
                   rule='corpus + parking sweeps + bursty schedules of concurrent add_unique / add_replace / replace / del / lookup + next_duplicate / traversal on keys shared by three entries, with resizes')
